@@ -179,6 +179,7 @@ class World:
 # --------------------------------------------------------------------------- sources
 SYNC_FLAVOURS = ("list", "tuple", "getitem", "sync_iter")
 ASYNC_FLAVOURS = ("agen", "aiter_cls", "aiter_noclose", "aiterable", "aiter_full")
+EXTRA_FLAVOURS = ("aiter_throwonly",)  # only used where a check asks for it
 ALL_FLAVOURS = SYNC_FLAVOURS + ASYNC_FLAVOURS
 LOGGING_FLAVOURS = ("getitem", "sync_iter") + ASYNC_FLAVOURS
 
@@ -288,7 +289,7 @@ class Source:
         if fl == "agen":
             ag = self.agen
             return ag is None or ag.ag_frame is None
-        if fl in ("aiter_cls", "aiterable", "aiter_full"):
+        if fl in ("aiter_cls", "aiterable", "aiter_full", "aiter_throwonly"):
             if fl == "aiterable" and self.n_iters == 0:
                 return True
             return self.n_aclose >= 1 or self.exhausted or self.failed_dead
@@ -303,7 +304,7 @@ class Source:
         fl = self.plan.flavour
         if fl == "agen":
             return self.agen is not None
-        if fl in ("aiter_cls", "aiter_full"):
+        if fl in ("aiter_cls", "aiter_full", "aiter_throwonly"):
             return True
         if fl == "aiterable":
             return self.n_iters > 0
@@ -464,6 +465,17 @@ class AIterFull(AIterCls):
         raise typ() if val is None else val
 
 
+class AIterThrowOnly(AIterCls):
+    """Class based async iterator with ``aclose`` and ``athrow`` but no ``asend``"""
+
+    __slots__ = ()
+
+    async def athrow(self, typ, val=None, tb=None):
+        self.src.world.log.append(("athrow", self.src.name))
+        # an exception thrown in makes this iterator deliver its next item (it "handles" the exception)
+        return await self.__anext__()
+
+
 class AIterable:
     __slots__ = ("src",)
 
@@ -496,6 +508,8 @@ def make_async_source(world, plan):
         obj = AIterNoClose(src)
     elif fl == "aiter_full":
         obj = AIterFull(src)
+    elif fl == "aiter_throwonly":
+        obj = AIterThrowOnly(src)
     elif fl == "aiterable":
         obj = AIterable(src)
     else:  # pragma: no cover
